@@ -507,3 +507,96 @@ func (s *Suite) ProtoPkg(sh *Shape) string { return s.protoPkg(sh) }
 
 // OutMsg is the sample response of a shape.
 func (s *Suite) OutMsg(sh *Shape) *dynamicpb.Message { return s.outMsg(sh) }
+
+// AbstractRespBare is AbstractResp for an RPC outside a Suite (no response / custom error type to
+// try): only the error renderings are decoded.
+func AbstractRespBare(e drv.Event) map[string]any {
+	body := unb64(e["bodyB64"])
+	ct, _ := e["ctype"].(string)
+	class := ctypeClass(ct)
+	status := int(e["status"].(float64))
+	raw := "<binary>"
+	if utf8.Valid(body) && len(body) < 300 {
+		raw = string(body)
+	}
+	rec := map[string]any{"event": "Resp", "status": status, "ctype": class, "hookHdr": false, "raw": raw,
+		"asMsg": map[string]any{"ok": false, "val": ""}, "asCustom": map[string]any{"ok": false, "val": ""}}
+	ve := &sebufhttp.ValidationError{}
+	if decodeAs(class, body, ve) {
+		names := []string{}
+		for _, v := range ve.GetViolations() {
+			names = append(names, strings.ToLower(v.GetField()))
+		}
+		rec["asVE"] = map[string]any{"ok": true, "viol": names}
+	} else {
+		rec["asVE"] = map[string]any{"ok": false, "viol": []string{}}
+	}
+	er := &sebufhttp.Error{}
+	if decodeAs(class, body, er) {
+		rec["asErr"] = map[string]any{"ok": true, "msg": er.GetMessage()}
+	} else {
+		rec["asErr"] = map[string]any{"ok": false, "msg": ""}
+	}
+	return rec
+}
+
+// BareRequest is the abstract request of a POST to an RPC whose message is not modelled field by
+// field (fields = <<>>): only the body class, the content type and the outcome are judged.
+func BareRequest(bodyCls string) AReq {
+	a := AReq{}
+	a.Rpc = Rpc{Name: "M", Verb: "POST"}
+	a.Body = Body{Cls: bodyCls, Ctype: "json"}
+	a.Handler.Kind, a.Handler.Val = "ok", "RESP"
+	a.Server = "go"
+	a.normalize()
+	return a
+}
+
+// ValidateSegments runs Trace_Wire over independent segments (each starting with a Req line); a
+// rejected segment is isolated, recorded, removed, and validation continues with the rest.
+func ValidateSegments(segs [][]string, dev []string, maxReject int) (accepted []int, rejected map[int]string, runs int, err error) {
+	rejected = map[int]string{}
+	remaining := make([]int, len(segs))
+	for i := range segs {
+		remaining[i] = i
+	}
+	for len(remaining) > 0 {
+		var lines []string
+		var owner []int
+		for _, si := range remaining {
+			for _, l := range segs[si] {
+				lines = append(lines, l)
+				owner = append(owner, si)
+			}
+		}
+		res, e := runTrace(lines, dev)
+		if e != nil {
+			return nil, nil, runs, e
+		}
+		runs++
+		if res.OK {
+			accepted = append(accepted, remaining...)
+			return
+		}
+		if res.RejectedAt < 1 || res.RejectedAt > len(owner) {
+			return nil, nil, runs, fmt.Errorf("harness: TLC failed on trace without a usable rejection line: %s", firstN(res.Error, 1500))
+		}
+		bad := owner[res.RejectedAt-1]
+		rejected[bad] = lines[res.RejectedAt-1]
+		var rest []int
+		for _, si := range remaining {
+			switch {
+			case si == bad:
+			case si < bad:
+				accepted = append(accepted, si)
+			default:
+				rest = append(rest, si)
+			}
+		}
+		remaining = rest
+		if len(rejected) >= maxReject {
+			return
+		}
+	}
+	return
+}
